@@ -104,7 +104,10 @@ theorem active_drift_counterexample :
     let s := run (init 1 1) [.run true, .startAll 1, .rangeEnd 0 false, .wsCorrupt 0 0]
     s.active = -1 ∧ countDl s.srcs = 0 := by decide
 
-/-- … and the consequence for the limit: three sources, maximum 1.  After the drift two sources download at once. -/
+/-- … and what it means for the limit, as far as the bookkeeping goes: three sources, maximum 1.  After the drift
+the counter admits a second download.  (In this model the picker's answers are unconstrained.  In the real torrent
+the drift needs a moment in which no range can be started, so only the few missing pieces are left to be picked
+right then — the limit is kept by that coincidence, not by the counter any more.) -/
 theorem cap_exceeded_counterexample :
     let s := run (init 3 1) [.run true, .startAll 1, .rangeEnd 0 false, .wsCorrupt 0 2]
     countDl s.srcs = 2 ∧ s.cap = 1 ∧ s.active = 1 := by decide
